@@ -234,6 +234,37 @@ def nested_break_cases(T, tier):
                 yield {0: evs}, name
 
 
+def routine_call_cases(T):
+    """Drum routines that call subroutines (seeded change C09-8: the callee was converted in the routine's
+    drum state and cut at its first note).  The callee is written by a writer of its own with drum mode off:
+    commands only (inside the oracle's domain), with a rest (time in front of the routine's note: the oracle
+    skips, model and implementation are compared), with a note behind its commands (D27: written as a plain
+    note, executed with the flag set), called by two routines and by the channel itself (one converted copy
+    per drum state), and a callee that calls on."""
+    ev = lambda t, p=0, on=0, off=0: (T[t], p, on, off)
+    chan = lambda rids, tail=(): ([ev("DRUM_MODE", 1)] + [ev("NOTE", r, 2, 1) for r in rids] + [ev("DRUM_MODE", 0)]
+                                   + list(tail) + [ev("NOTE", 12, 3, 1)])
+    callees = {
+        "commands": [ev("PAN", 2), ev("VOL_REL", 1)],
+        "rest": [ev("PAN", 2), ev("REST", 0, 0, 2)],
+        "note": [ev("PAN", 2), ev("NOTE", 44, 2, 1), ev("VOL_REL", 1)],
+        "loop": [ev("LOOP_START"), ev("VOL_REL", 1), ev("LOOP_END", 3)],
+        "chain": [ev("PAN", 1), ev("JUMP", 111), ev("VOL", 9)],
+        "empty": [],
+    }
+    for name, callee in callees.items():
+        for pos in ("first", "middle"):
+            r83 = ([ev("JUMP", 110), ev("VOL", 5)] if pos == "first" else [ev("VOL", 5), ev("JUMP", 110), ev("VOL_REL", 2)]) + [ev("NOTE", 43, 1, 0)]
+            song = {0: chan([83]), 83: r83, 110: callee}
+            if name == "chain": song[111] = [ev("TRANSPOSE", 3)]
+            yield Case("conv " + songgen.render(song), ("drum", "routine-call", name), "routine-call")
+        # the same callee reached from two routines and from the channel (before and after drum mode)
+        song = {0: [ev("JUMP", 110)] + chan([83, 84, 83], [ev("JUMP", 110)]), 83: [ev("JUMP", 110), ev("NOTE", 43, 1, 0)],
+                84: [ev("VOL", 3), ev("JUMP", 110), ev("NOTE", 45, 1, 0)], 110: callee}
+        if name == "chain": song[111] = [ev("TRANSPOSE", 3)]
+        yield Case("conv " + songgen.render(song), ("drum", "routine-call", name, "shared"), "routine-call")
+
+
 def _cases_orig(rng, tier):
     for c in CORPUS:
         yield Case(c, ("corpus",), "corpus")
@@ -251,6 +282,8 @@ def _cases_orig(rng, tier):
     for song, name in nested_break_cases(T, tier):
         yield Case("conv " + songgen.render(song), ("nested-break", name), "nested-break")
     for c in pitch_cases(rng, T, 60 if tier == "quick" else 800):
+        yield c
+    for c in routine_call_cases(T):
         yield c
     n = 300 if tier == "quick" else 5000
     made = 0
@@ -538,7 +571,9 @@ def drum_dynamic(req, budget=60000):
                     stack.pop()
                     i = j
             elif t == T["JUMP"]:
-                if routine: raise Bad()
+                # a subroutine called by a drum routine: the routine's writer has drum mode off (get_subroutine(n, 1, 0)),
+                # so the callee is written with drum mode off (static[i] is False here) while the driver's flag is
+                # still set: a note in the callee is D27 as well
                 drum = play(e[1] % 65536, 0, drum, static[i], False, depth + 1)
             elif t == T["DRUM_MODE"]:
                 if routine: raise Bad()
